@@ -136,6 +136,16 @@ func walk(d []byte, mode pdf.ReaderErrorHandling, st *walkStats) {
 		st.Opened = "sequential"
 	}
 	defer r.Close()
+	if st.Opened == "reader" && len(d) <= 64<<10 {
+		// the recovery path as well, whether or not the file needed it
+		if fi, err := pdf.SequentialScan(bytes.NewReader(d), int64(len(d))); err == nil {
+			if r2, err := fi.MakeReader(opt); err == nil {
+				r2.Close()
+			} else {
+				st.note(err)
+			}
+		}
+	}
 
 	x := pdf.NewExtractor(r)
 	c0 := pdf.CursorAt(x, nil)
